@@ -53,6 +53,7 @@ type Checked struct {
 	curClosure   *Closure
 	lastInv      map[int]*invSummary
 	rejKeys      []Key
+	HarmlessFail map[int]bool // Invokes that failed at their own shallow dependency check (nothing was resolved)
 	R3           bool // a decorator-introduced key (decorated, never provided) was live at some Invoke
 	groupSeen    map[groupReq]int
 	typeKeys     map[int]map[Key]bool
@@ -126,6 +127,14 @@ func (c *Checked) Step(i int) {
 					}
 				}
 			}
+		}
+	}
+	if op.Kind == OpInvoke && c.modelOK() && res.Verdict != VOK && !res.Facts.Escaped {
+		if c.M.MissingShallow(Consumer{Scope: op.Scope, Fn: -1}, c.H.Funcs[op.Fn].LeafParams()) {
+			if c.HarmlessFail == nil {
+				c.HarmlessFail = map[int]bool{}
+			}
+			c.HarmlessFail[i] = true
 		}
 	}
 	c.curClosure = nil
@@ -444,6 +453,16 @@ func (c *Checked) checkLogRules(i int, op Op, res *OpResult, evs []Event) {
 	// needs on the first attempt, so the claim is made only when the model's
 	// closure of this Invoke still contains the failed function and no
 	// decorator loop is involved.)
+	for _, e := range evs {
+		if e.Kind == EvNested {
+			c.probe("reentrant_demand")
+			if e.Exec == -2 {
+				// satisfied without re-entering the constructor (e.g. by a
+				// decorator that replaces the value): legitimate
+				c.probe("reentrant_demand_satisfied")
+			}
+		}
+	}
 	if c.prevFail >= 0 && c.prevFailOp == i-1 && c.sameInvoke(i-1, i) &&
 		c.curClosure != nil && c.curClosure.Fns[c.prevFail] && !c.curClosure.Loop {
 		c.probe("retry_after_failure")
@@ -907,6 +926,11 @@ func (c *Checked) checkGroupArg(i int, who string, cons Consumer, p LeafParam, a
 		if len(want) == 0 {
 			c.probe("group_empty")
 		}
+		for _, n := range feeders {
+			if !builtNow[n.Fn] {
+				c.viol(i, "feeder-not-executed", fmt.Sprintf("%s: visible feeder f%d has not been executed successfully when the consumer runs", who, n.Fn), "C10", "C03", "C07")
+			}
+		}
 		if !eqI64(got, want) {
 			c.viol(i, "wrong-group-content", fmt.Sprintf("%s: expected members %v of %d visible feeders, received %s", who, want, len(feeders), c.describeSerials(got)), "C10", "C01")
 		}
@@ -933,7 +957,7 @@ func (c *Checked) checkGroupArg(i int, who string, cons Consumer, p LeafParam, a
 				others = append(others, q)
 			}
 		}
-		cl := m.ClosureOf(cons, others)
+		cl := m.MustClosure(cons, others)
 		if !cl.Decorated {
 			for _, n := range feeders {
 				if cl.Fns[n.Fn] && !builtAtCall[n.Fn] {
@@ -1045,15 +1069,15 @@ func (c *Checked) checkInvokeModel(i int, op Op, res *OpResult, evs []Event) {
 		c.probe("executed>=3_ok")
 	}
 	// lower bound on success
-	if res.Verdict == VOK && !cl.Decorated {
-		for fn := range cl.Fns {
+	if res.Verdict == VOK && !cl.Loop {
+		mc := m.MustClosure(cons, lp)
+		for fn := range mc.Fns {
 			if !executed[fn] {
-				// optional dependency whose provider is unavailable is legitimately skipped
-				if c.skippedOptional(cons, lp, fn) {
-					continue
-				}
-				c.viol(i, "closure-member-not-built", fmt.Sprintf("Invoke f%d succeeded but f%d of its closure did not run", inv.ID, fn), "C03")
+				c.viol(i, "closure-member-not-built", fmt.Sprintf("Invoke f%d succeeded but %s f%d of its closure did not run", inv.ID, c.H.Funcs[fn].Role, fn), "C03")
 			}
+		}
+		if len(mc.Fns) >= 2 {
+			c.probe("must_closure>=2")
 		}
 	}
 	// C04 / C05 verdicts
@@ -1112,48 +1136,6 @@ func (c *Checked) checkInvokeModel(i int, op Op, res *OpResult, evs []Event) {
 			}
 		}
 	}
-}
-
-// skippedOptional: fn is in the closure only through an optional edge whose
-// provider chain is not available, so dig legitimately left it unbuilt.
-func (c *Checked) skippedOptional(cons Consumer, lp []LeafParam, fn int) bool {
-	m := c.M
-	// recompute the closure treating unavailable optional providers as absent
-	seenC := map[*MCtor]bool{}
-	need := map[int]bool{}
-	av := m.newAvail()
-	var params func(c Consumer, lp []LeafParam)
-	var ctor func(n *MCtor)
-	ctor = func(n *MCtor) {
-		if seenC[n] || n.Built {
-			return
-		}
-		seenC[n] = true
-		need[n.Fn] = true
-		params(Consumer{Scope: n.Origin, Fn: n.Fn}, n.LP)
-	}
-	params = func(cc Consumer, lp []LeafParam) {
-		for _, p := range lp {
-			if p.Key.IsGroup() {
-				if !p.Soft {
-					for _, f := range m.Feeders(cc.Scope, p.Key) {
-						ctor(f)
-					}
-				}
-				continue
-			}
-			n := m.NearestProv(cc.Scope, p.Key)
-			if n == nil {
-				continue
-			}
-			if p.Opt && av.ctorAvail(n) != yes {
-				continue
-			}
-			ctor(n)
-		}
-	}
-	params(cons, lp)
-	return !need[fn]
 }
 
 // ---------------------------------------------------------------- introspection (C18)
